@@ -43,6 +43,8 @@ if TYPE_CHECKING:
     from .template import BoundTemplate
     from .token import Token
 
+_MISSING = object()
+
 
 class RenderContext:
     """A template render context.
@@ -140,11 +142,19 @@ class RenderContext:
 
     def assign(self, key: str, val: Any) -> None:
         """Add or replace the context variable named _key_ with the value _val_."""
+        if not self.env.local_namespace_limit:
+            self.locals[key] = val
+            return
+
+        previous = self.locals.get(key, _MISSING)
         self.locals[key] = val
-        if (
-            self.env.local_namespace_limit
-            and self.get_size_of_locals() > self.env.local_namespace_limit
-        ):
+        if self.get_size_of_locals() > self.env.local_namespace_limit:
+            # Don't keep the value that broke the limit. In lax and warn modes
+            # rendering carries on after this error.
+            if previous is _MISSING:
+                del self.locals[key]
+            else:
+                self.locals[key] = previous
             raise LocalNamespaceLimitError("local namespace limit reached", token=None)
 
     def get_size_of_locals(self) -> int:
